@@ -749,6 +749,16 @@ def union_stat(d):
     return "%s:arity=%d,none=%s,nested=%s,listed=%s" % (s[0], len(leaves), where, nested, d["opt"])
 
 
+def func_sig(d):
+    """Position and return-annotation style of the function-field names in a declaration (None: there are none)."""
+    fs = [n for n in P.walk(d["ty"]) if n[0] == "func"]
+    if not fs:
+        return None
+    where = "alone" if d["ty"][0] == "func" else "in:" + P.top_form(d["ty"])
+    return "%s%s:func[%s]" % ("annot:" if d["annot"] else "assign:", where,
+                              ",".join(sorted({"quoted" if n[2] else "plain" for n in fs})))
+
+
 def falsy(r):
     try:
         return not G.unreify(r)
@@ -782,6 +792,11 @@ def attribute(aspect, detail, d_base, d_var, o_base, o_var, name):
         o_t = o_base if "tuple-single-class" in tb else o_var
         if o_t["def"] == "ok" and o_t["objs"].get(name) == ("defective",):
             return K_TUPLE
+    if func_sig(d_base) or func_sig(d_var):
+        # a parameterless function declared `-> Field`: what matters is where it stands and how its return type is written
+        side = lambda d: func_sig(d) or (("annot:" if d["annot"] else "assign:") + P.top_form(d["ty"]))
+        a, b = sorted([side(d_base), side(d_var)])
+        return "C13/%s/function-field/%s~%s" % (aspect, a, b)
     if aspect == "required" and (union_stat(d_base) or union_stat(d_var)):
         # which fields a typing Union/Optional marks optional depends on the SHAPE of the union only
         side = lambda d: union_stat(d) or (("annot:" if d["annot"] else "assign:") + P.top_form(d["ty"])
@@ -878,6 +893,9 @@ def run_class_cases(rep, cases, ctx, workdir, rnd, per_field):
                     elif long_names and obs[0][vi]["def"] != o_f["def"] and \
                             all(n not in (o_f.get("fields") or []) for n in long_names):
                         key = K_FUTURE
+                    elif any(func_sig(d) for d in v["decls"]):
+                        key = "C13/future-annotations/%s/function-field/%s" % (
+                            aspect, "+".join(sorted({func_sig(d) for d in v["decls"] if func_sig(d)})))
                     else:
                         key = "C13/future-annotations/%s/%s" % (aspect, "+".join(decl_sig(d) for d in v["decls"]))
                     report(rep, key, aspect, detail, c, vi, vi, False, True)
@@ -1180,6 +1198,11 @@ def run(rep, tier):
         alias_cases = AL.lattice_cases(tier)
         for _ in range(60 if tier == "quick" else 600):
             ac = AL.random_case(rnd, gen_semantic_field, ctx, max_depth)
+            if ac:
+                alias_cases.append(ac)
+        alias_cases += AL.factory_lattice(tier)
+        for _ in range(30 if tier == "quick" else 300):
+            ac = AL.random_factory_case(rnd, gen_semantic_field, ctx, max_depth)
             if ac:
                 alias_cases.append(ac)
         AL.run_cases(rep, alias_cases, ctx, rnd, per_field, sys.modules[__name__])
